@@ -91,6 +91,11 @@ type WdSpec struct {
 	// Ret > 0: not a withdrawal but a side-chain deposit return (C31) with
 	// payload version Ret-1, authorised by the arbiters' multisig script
 	Ret int `json:"ret,omitempty"`
+	// Typed: a legacy (version 0) withdrawal whose outputs are typed withdraw
+	// outputs naming other side-chain transactions than its payload does
+	Typed bool `json:"typed,omitempty"`
+	// Again: withdraw the side-chain transaction that such a typed output named
+	Again bool `json:"again,omitempty"`
 }
 
 type wdFacts struct {
@@ -183,6 +188,12 @@ func (s *sim) makeWithdraw(v *view, spec TxSpec) *txInfo {
 	if len(hs) == 0 {
 		hs = []int{sel0}
 	}
+	if w.Again && len(s.typedNamed) > 0 {
+		// the side-chain transaction that a typed output of an earlier legacy
+		// withdrawal named (without withdrawing it)
+		hs = []int{s.typedNamed[len(s.typedNamed)-1-mod(w.Signer, min(len(s.typedNamed), 3))]}
+		s.c.Probe("withdrawal-of-a-hash-named-by-an-earlier-typed-legacy-output")
+	}
 	if len(hs) > 3 {
 		hs = hs[:3]
 	}
@@ -224,6 +235,23 @@ func (s *sim) makeWithdraw(v *view, spec TxSpec) *txInfo {
 		if wf.ver >= 1 {
 			o.Type = common2.OTWithdrawFromSideChain
 			o.Payload = &outputpayload.Withdraw{Version: 0, GenesisBlockAddress: cc.acc.Address, SideChainTransactionHash: h, TargetData: []byte{}}
+		} else if w.Typed && !wf.ret {
+			// a legacy withdrawal names its hashes in the payload; a typed output
+			// on it, naming ANOTHER side-chain transaction, withdraws nothing
+			namedIdx := hs[0] + 1 + i + w.Signer
+			named := sideHash(namedIdx)
+			defer func() { s.typedNamed = append(s.typedNamed, mod(namedIdx, 8)) }()
+			for k := 0; k < 8; k++ {
+				// by preference one that HAS been withdrawn on this branch
+				if x := sideHash(w.Signer + k); v.withdrawn[x] == 1 && !seen[x] {
+					named, namedIdx = x, w.Signer+k
+					s.c.Probe("legacy-withdrawal-with-typed-output-naming-a-withdrawn-hash")
+					break
+				}
+			}
+			o.Type = common2.OTWithdrawFromSideChain
+			o.Payload = &outputpayload.Withdraw{Version: 0, GenesisBlockAddress: cc.acc.Address, SideChainTransactionHash: named, TargetData: []byte{}}
+			s.c.Fault("withdraw:legacy-with-typed-output-naming-another-hash")
 		}
 		outs = append(outs, o)
 	}
